@@ -423,7 +423,7 @@ def r05_2_wrappers(chk, dp):
     ev = dp.ev(q)
     chk.saw(DP, q)
     fn = dp.func(q)
-    call = [e for e in ev.events if e.kind == "call" and e.value.as_atom() and e.value.as_atom()[1].key() == ev.param_names[0]]
+    call = [e for e in ev.events if e.kind == "call" and e.value.as_atom() and e.value.as_atom()[0] == "call" and e.value.as_atom()[1].key() == ev.param_names[0]]
     chk.need(len(call) == 1, f"{q}: constructor call not found")
     a = call[0].value.as_atom()
     kw = dict(a[3]) if len(a) > 3 else {}
